@@ -122,6 +122,7 @@ type c13EpScript struct {
 	dialer    int
 	dial      string // ok | err | unreach | transient
 	lifecycle bool
+	deaf      bool // the dial does not observe its context: a cancellation arrives while the handshake completes anyway
 }
 
 type c13EpCall struct {
@@ -212,6 +213,7 @@ type c13EpDialerInfo struct {
 }
 
 type c13EpWorld struct {
+	down     chan struct{} // closed when the case is torn down: deaf dials give up too
 	mu       sync.Mutex
 	pool     *UdpEndpointPool
 	keys     []UdpEndpointKey
@@ -266,13 +268,24 @@ func (d *c13EpFakeDialer) DialContext(ctx context.Context, _ string, addr string
 	pd := &c13EpDial{call: call, script: sc, proceed: make(chan struct{}), parked: true}
 	w.dials = append(w.dials, pd)
 	w.mu.Unlock()
-	select {
-	case <-pd.proceed:
-	case <-ctx.Done():
-		w.mu.Lock()
-		pd.parked = false
-		w.mu.Unlock()
-		return nil, ctx.Err()
+	if sc.deaf && sc.dial == "ok" {
+		select {
+		case <-pd.proceed:
+		case <-w.down:
+			w.mu.Lock()
+			pd.parked = false
+			w.mu.Unlock()
+			return nil, errors.New("c13: case torn down")
+		}
+	} else {
+		select {
+		case <-pd.proceed:
+		case <-ctx.Done():
+			w.mu.Lock()
+			pd.parked = false
+			w.mu.Unlock()
+			return nil, ctx.Err()
+		}
 	}
 	switch sc.dial {
 	case "err":
@@ -312,7 +325,7 @@ func (w *c13EpWorld) tail() string {
 }
 
 func c13NewEpWorld(shared bool) *c13EpWorld {
-	w := &c13EpWorld{epByUe: map[*UdpEndpoint]*c13Ep{}, classes: map[string]bool{}, shared: shared}
+	w := &c13EpWorld{epByUe: map[*UdpEndpoint]*c13Ep{}, classes: map[string]bool{}, shared: shared, down: make(chan struct{})}
 	w.pool = NewUdpEndpointPool()
 	// three keys in three different creation shards
 	src := func(i int) netip.AddrPort {
@@ -797,6 +810,7 @@ func (w *c13EpWorld) releaseDial(d *c13EpDial) {
 }
 
 func (w *c13EpWorld) teardown() {
+	close(w.down)
 	w.mu.Lock()
 	calls := append([]*c13EpCall(nil), w.calls...)
 	w.mu.Unlock()
@@ -876,6 +890,7 @@ func c13EndpointCase(rt *rapid.T) {
 				dialer:    rapid.IntRange(0, 1).Draw(rt, "dialer"),
 				dial:      rapid.SampledFrom(dialKinds).Draw(rt, "dial"),
 				lifecycle: rapid.IntRange(0, 2).Draw(rt, "lifecycle") == 0,
+				deaf:      rapid.IntRange(0, 2).Draw(rt, "deaf_dial") == 0,
 			})
 		}
 		w.scripts = append(w.scripts, scs)
@@ -1059,9 +1074,25 @@ func c13EndpointCase(rt *rapid.T) {
 				w.classes["old_core_closed_with_tuple_shared_across_generations"] = true
 			}
 		case "cancel":
-			d := parkedDials[rapid.IntRange(0, len(parkedDials)-1).Draw(rt, "dial")]
+			var cands []*c13EpDial
+			for _, pd := range parkedDials {
+				if !pd.call.cancelled {
+					cands = append(cands, pd)
+				}
+			}
+			if len(cands) == 0 {
+				continue
+			}
+			d := cands[rapid.IntRange(0, len(cands)-1).Draw(rt, "dial")]
 			w.tr("cancel(call%d,k%d)", d.call.id, d.call.key)
 			d.call.cancelled = true
+			if d.script.deaf && d.script.dial == "ok" {
+				// the dial goes on regardless and is released like any other: whatever
+				// it returns (a live transport included) still has an owner to find
+				w.classes["cancelled_while_dial_completes_anyway"] = true
+				d.call.cancel()
+				continue
+			}
 			// the dial is no longer "parked" from now on: settle must wait for the call
 			w.mu.Lock()
 			d.parked = false
